@@ -16,12 +16,17 @@ ELEM = "wntr/network/elements.py"
 CTRL = "wntr/network/controls.py"
 
 EXPLANATION = (
-    "Formula extraction (AST -> sympy by abstract interpretation of each builder's loop body, all status/isinstance paths enumerated) for the "
-    "8 link head-loss constraint builders, the coefficient parameter builders, the H-W/pump constants and HeadPump.get_head_curve_coefficients; "
-    "compared as closed formulas with the documented laws: closed/isolated => residual is the flow; orientation d(R)/d(Hs) = -d(R)/d(He) and "
-    "implicit dq/dHs >= 0; H-W + minor loss odd and increasing with the documented exponents/constants; C0/C1 agreement of the smoothing "
-    "polynomials with their neighbouring branches at the breakpoints; pump laws; valve laws per status; truth tables of Pipe/Pump/Valve.status; "
-    "region evaluation of the check-valve / pump shut-off conditions. Decides the registered equations and status logic, not the solver's result.")
+    "Mostly T2: formula extraction (AST -> sympy by symbolic path enumeration of each builder's loop body, all status / isinstance paths) for the 8 link "
+    "head-loss constraint builders, the coefficient parameter builders and the H-W / pump constants, compared with the documented laws. R-C02-1: a "
+    "Closed-or-isolated link gets the residual `flow` (guard recognised by its text), every other path one constraint per link. R-C02-2: orientation "
+    "d(R)/d(Hs) = -d(R)/d(He) and dq/dHs >= 0 on each open branch (the piecewise H-W cubic decided numerically at endpoints and critical points; the head-pump "
+    "smoothing cubic is skipped and noted). R-C02-3: H-W + minor loss odd and increasing with the documented exponents / constants; C0/C1 joins at the "
+    "breakpoints are checked numerically (40 digits, rel. 1e-9) after substituting the constants. R-C02-4: coefficient parameters equal their formulas and "
+    "re-register on the attributes they read. R-C02-5: pump laws, C0/C1 joins, and the 1- and 2-point curve fits of HeadPump.get_head_curve_coefficients (the "
+    "3-point fit is NOT analysed); the memo-staleness part (labelled R-C02-5c in a comment, emitted under R-C02-5) is an AST / text pattern match. R-C02-6: "
+    "valve laws per (type, status). R-C02-7 (T3, exhaustive over the 3 x 3 (user, internal) table Closed / Open / Active evaluated by sa/peval; member CV not "
+    "enumerated): Pipe / Pump / Valve.status. R-C02-8 (T3, bounded): check-valve and pump shut-off conditions evaluated on ONE sample point per region (42 and "
+    "16 points) on mock objects with stubbed pump coefficients. Decides the registered equations and status logic, not the solver's result.")
 RULE_TEXT = "one instance = one (builder, path, branch) formula obligation, one truth-table row or one region of a condition; distinct by construct text"
 ASSUMPTIONS = ["the evaluator evaluates the registered expression (C15) and Newton converges to a root of it (not decided)",
                "sign assumptions: hw_resistance>0, minor_loss>=0, tcv_resistance>0, pump A,B,C>0, pump_slope<0 (as constructed by the parameter builders)"]
